@@ -308,6 +308,30 @@ func run(r *ev.Run) {
 		}
 		return rc
 	}
+	// 0. sequential pass over consecutive records: the bytes returned for one request must stay what they were when the
+	// next request is serialised (a returned slice that aliases reused storage would make the hash of a request
+	// depend on what else is in flight)
+	{
+		var prev, prevCopy []byte
+		var prevRec rec
+		aliased := 0
+		for i := 0; i < total; i++ {
+			rc := decode(i)
+			cur := a.build(rc).GetContentHashData()
+			if prev != nil && !bytes.Equal(prev, prevCopy) {
+				aliased++
+				if aliased == 1 {
+					r.Violate(ev.Violation{Key: "hash-input-changes-after-next-call", What: fmt.Sprintf("the bytes returned by GetContentHashData for %v changed when the next request %v was serialised (the returned slice aliases reused storage)", a.describe(prevRec), a.describe(rc)),
+						Replay: map[string]interface{}{"A": a.describe(prevRec), "B": a.describe(rc)}})
+				}
+			}
+			prev, prevRec = cur, rc
+			prevCopy = append(prevCopy[:0], cur...)
+		}
+		r.Set("consecutive_pairs_checked_for_aliasing", int64(total-1))
+		r.Set("aliased_results", int64(aliased))
+	}
+
 	// 1. hash every record with the real code (parallel over index ranges)
 	workers := runtime.NumCPU()
 	var wg sync.WaitGroup
